@@ -103,3 +103,62 @@ Definition gc_gen_io (l : list Z) : list Z :=
   let (n, l) := take1 l in let (d, _) := take_grid n n l in
   concat (map unbools (gen_adj n (map bools d))).
 (* @export gc_gen_io *)
+
+(* ================= additions (declared specs, published rules, observation) ================= *)
+(* ---- C01: the declared observation spec, as a boolean on a state (= the observed fields) ----
+   adj_matrix (n,n) bool; colors (n,) in [-1, n-1]; current_node_index in [0, n-1]; action_mask (n,) bool *)
+Definition ranges_b (n : Z) (s : state) : bool :=
+  (zlen (adj s) =? n) && forallb (fun r : list bool => zlen r =? n) (adj s)
+  && (zlen (colors s) =? n) && forallb (fun c => (-1 <=? c) && (c <=? n - 1)) (colors s)
+  && (0 <=? cur s) && (cur s <=? n - 1) && (zlen (amask s) =? n).
+
+(* ---- C12: the observation the code builds (step: from the OLD state's adjacency, the new colours, the
+   next state's mask, the next node index; reset: from the locals) and the view of a state ---- *)
+Definition observation : Type := (list (list bool) * list Z * Z * list bool)%type.
+Definition observe (s : state) : observation := (adj s, colors s, cur s, amask s).
+Definition obs_step (n : Z) (s : state) (a : Z) : observation :=
+  let colors' := jset (colors s) (cur s) a in
+  let cur' := (cur s + 1) mod n in
+  (adj s, colors', cur', valid_actions n cur' (adj s) colors').
+Definition obs_init (n : Z) (adj0 : list (list bool)) : observation :=
+  (adj0, repeat (-1) (Z.to_nat n), 0, repeat true (Z.to_nat n)).
+Definition enc_obs (o : observation) : list Z :=
+  match o with (a, c, k, m) => concat (map unbools a) ++ c ++ [k] ++ unbools m end.
+
+(* ---- C09: the published rules, stated without any array-indexing machinery ----
+   colour the current node with the chosen colour; move to the next node (node 0 after the last one); the new mask is
+   the set of colours no neighbour of the next node has; an illegal colour (some neighbour has it) ends the episode
+   with reward -num_nodes; otherwise the episode ends when every node is coloured, with reward minus the number of
+   colours in use; otherwise it continues with reward 0. *)
+Definition colours_used (n : Z) (colors : list Z) : Z :=
+  count_if (fun c => existsb (Z.eqb c) colors) (zrange n).
+Definition paint (n : Z) (colors : list Z) (i a : Z) : list Z :=
+  map (fun j => if j =? i then a else color_of colors j) (zrange n).
+Definition next_node (n i : Z) : Z := if i + 1 <? n then i + 1 else 0.
+Definition complete_b (n : Z) (colors : list Z) : bool := forallb (fun j => 0 <=? color_of colors j) (zrange n).
+Definition rules_step (n : Z) (s : state) (a : Z) : state * tstep :=
+  let colors' := paint n (colors s) (cur s) a in
+  let nxt := next_node n (cur s) in
+  let s' := mkS (adj s) colors' nxt (map (legal_b n (adj s) colors' nxt) (zrange n)) in
+  if negb (legal_b n (adj s) (colors s) (cur s) a) then (s', termination 1 [- n])
+  else if complete_b n colors' then (s', termination 1 [- colours_used n colors'])
+  else (s', transition 1 [0]).
+
+(* in: n, state, action  ->  same layout as gc_step_io, computed by the rules *)
+Definition gc_rules_io (l : list Z) : list Z :=
+  let (n, l) := take1 l in let (s, l) := dec_state n l in let (a, _) := take1 l in
+  let (s', t) := rules_step n s a in enc_state s' ++ enc_ts t.
+(* @export gc_rules_io *)
+
+(* in: n, state, action  ->  the observation the step builds: adjacency, colours, node index, mask *)
+Definition gc_obs_io (l : list Z) : list Z :=
+  let (n, l) := take1 l in let (s, l) := dec_state n l in let (a, _) := take1 l in
+  enc_obs (obs_step n s a).
+(* @export gc_obs_io *)
+
+(* verified checkers on IMPLEMENTATION states / observations:
+   [inside the declared spec; colours in use (declarative); colours in use (code's unique/count); every node coloured] *)
+Definition gc_spec_io (l : list Z) : list Z :=
+  let (n, l) := take1 l in let (s, _) := dec_state n l in
+  [ b2z (ranges_b n s); colours_used n (colors s); distinct_nonneg [] (colors s); b2z (complete_b n (colors s)) ].
+(* @export gc_spec_io *)
